@@ -126,7 +126,12 @@ def body(ch, ctx):
         start = ch.choose("start", g[i0:i1])
         end = ch.choose("end", g)
         one = ch.choose("one", (True, False))
-        ctx.sample(lambda: dict(start=start, end=end, fmt=fmt, one=one))
+        other_first = ch.flag("other_convention_first")
+        ctx.sample(lambda: dict(start=start, end=end, fmt=fmt, one=one, other_convention_first=other_first))
+        other = "bed" if fmt == "gff" else "gff"
+        if other_first:
+            # the same numbers asked under the other convention first: answers must not depend on call history
+            B.bins(start, end, fmt=other, one=one)
         if one:
             got = check_one(ctx, start, end, fmt)
             if fmt == "gff" and start <= end:
@@ -135,10 +140,10 @@ def body(ch, ctx):
                 ctx.check(ok, "feature-bin-differs-from-bins", dict(fmt=fmt), start=start, end=end,
                           feature_bin=repr(f.bin)[:100], bins=repr(got)[:100])
                 # the bin that goes into the database follows the coordinates the feature has when it is stored
-                g = Feature(seqid="c", start=1, end=1)
-                g.start, g.end = start, end
-                stored = g.astuple()[-1]
-                ctx.check(stored == got and g.calc_bin() == got, "stored-bin-stale-after-coordinate-change", dict(fmt=fmt),
+                g2 = Feature(seqid="c", start=1, end=1)
+                g2.start, g2.end = start, end
+                stored = g2.astuple()[-1]
+                ctx.check(stored == got and g2.calc_bin() == got, "stored-bin-stale-after-coordinate-change", dict(fmt=fmt),
                           start=start, end=end, stored=repr(stored)[:100], bins=repr(got)[:100])
         else:
             check_set(ctx, start, end, fmt)
